@@ -1135,7 +1135,7 @@ func classify(v *report.Violation) {
 
 func tierBounds(thorough bool) bounds {
 	if thorough {
-		return bounds{maxSess: 3, maxLen: 5, maxDrops: 2, dropsAtLen: map[int]int{5: 1}, torn: true, budget: 16 * time.Minute}
+		return bounds{maxSess: 3, maxLen: 5, maxDrops: 3, dropsAtLen: map[int]int{4: 2, 5: 2}, torn: true, budget: 16 * time.Minute}
 	}
 	return bounds{maxSess: 2, maxLen: 4, maxDrops: 2, dropsAtLen: map[int]int{4: 1}, torn: true, budget: 50 * time.Second}
 }
